@@ -178,6 +178,32 @@ def AppManifest.WF (m : AppManifest) : Prop :=
 
 instance (m : AppManifest) : Decidable m.WF := by unfold AppManifest.WF; infer_instance
 
+/-- `WF` without its last clause: only "names and values read through the `a or b` idiom are not empty" -/
+def AppManifest.WF0 (m : AppManifest) : Prop :=
+  m.package ≠ [] ∧ (∀ v ∈ m.versionCode.toList, v.render ≠ []) ∧ (∀ s ∈ m.versionName.toList, s ≠ []) ∧
+  (∀ s ∈ m.usesSdk.toList, ∀ v ∈ s.vals, v.render ≠ []) ∧
+  (∀ p ∈ m.permissions, p.name ≠ [] ∧ ∀ v ∈ p.maxSdk.toList, v.render ≠ []) ∧
+  (∀ a ∈ m.activities, a.name ≠ []) ∧
+  (∀ n ∈ m.features ++ (m.services ++ (m.receivers ++ (m.providers ++ m.libraries))), n ≠ [])
+
+instance (m : AppManifest) : Decidable m.WF0 := by unfold AppManifest.WF0; infer_instance
+
+/-- the last clause of `WF` on its own: whenever a MAIN action and a LAUNCHER category are declared under one component name
+    (in enabled components), the component holding the MAIN action has a filter with both -/
+def AppManifest.LauncherCoherent (m : AppManifest) : Prop :=
+  ∀ a ∈ m.activities, ∀ b ∈ m.activities, a.live = true → b.live = true → a.hasMainAction = true → b.hasLauncherCategory = true →
+    a.name = b.name → a.filters.any Filter.isLauncher = true
+
+instance (m : AppManifest) : Decidable m.LauncherCoherent := by unfold AppManifest.LauncherCoherent; infer_instance
+
+/-- androguard's notion of a main activity (`get_main_activities`: "x.intersection(y)"): a NAME under which some enabled
+    activity / alias declares the action MAIN (in any of its filters) and some enabled activity / alias declares the category
+    LAUNCHER (in any of its filters).  Android's launcher asks for both in ONE filter (`Activity.isMain`); the two notions
+    coincide exactly on the manifests that are `LauncherCoherent`. -/
+def AppManifest.IsMainName (m : AppManifest) (n : Str) : Prop :=
+  (∃ a ∈ m.activities, a.live = true ∧ a.hasMainAction = true ∧ a.name = n) ∧
+  (∃ b ∈ m.activities, b.live = true ∧ b.hasLauncherCategory = true ∧ b.name = n)
+
 /-! ### what the queries have to answer -/
 
 def optFirst : Option Str → First
